@@ -81,6 +81,7 @@ type Func struct {
 }
 
 type Prog struct {
+	Free   []string          `json:"free,omitempty"` // names of free variables used as path parameters
 	Funcs  []*Func           `json:"funcs,omitempty"`
 	Inputs map[string]string `json:"inputs,omitempty"` // path parameter name -> value (strings)
 	Body   []*Stmt           `json:"body"`
@@ -114,6 +115,10 @@ type Features struct {
 	Mod           bool
 	NestedReturn  bool
 	DeclInBranch  bool
+	NoAssign      bool // no reassignment statements (besides while counters)
+	NoLitIdentity bool // no 0/1/2/true/false literal as a direct operand of a binary operator
+	NoSelfOp      bool // no binary operator with two identical operands
+	FreeVars      bool // free variables fi ff fs fb fa fo (bound by the caller at run time)
 }
 
 func FullInterp() Features {
@@ -212,10 +217,145 @@ func (g *G) strLit() *Expr { return &Expr{K: "str", S: strPool[g.R.Intn(len(strP
 // Expr generates an expression of (intended) static type t.
 func (g *G) Expr(t Ty, depth int) *Expr {
 	e := g.expr(t, depth)
+	if e.K == "bin" && (g.F.NoLitIdentity || g.F.NoSelfOp) {
+		g.deTrigger(e)
+	}
 	if g.R.Intn(12) == 0 {
 		e.Paren++
 	}
 	return e
+}
+
+// deTrigger rewrites the operands of a binary node so that it does not have the shape of
+// an algebraic identity (x*0, x+0, x*1, x/1, x*2, true||x, x-x, ...).
+func (g *G) deTrigger(e *Expr) {
+	fix := func(o *Expr) {
+		switch o.K {
+		case "int":
+			if o.I >= 0 && o.I <= 2 {
+				o.I += 3
+			}
+		case "float":
+			if o.F == 0 || o.F == 1 || o.F == 2 {
+				o.F += 3.25
+			}
+		case "bool":
+			if vs := g.varsOf(TBool); len(vs) > 0 {
+				*o = Expr{K: "var", S: vs[g.R.Intn(len(vs))]}
+			} else {
+				*o = Expr{K: "bin", Op: "<", A: []*Expr{{K: "int", I: 4}, {K: "var", S: "fi"}}}
+			}
+		case "un":
+			if len(o.A) == 1 && (o.A[0].K == "int" || o.A[0].K == "float" || o.A[0].K == "bool") {
+				if o.A[0].K == "bool" {
+					*o = Expr{K: "un", Op: "!", A: []*Expr{{K: "bin", Op: "<", A: []*Expr{{K: "int", I: 4}, {K: "var", S: "fi"}}}}}
+					return
+				}
+				if o.A[0].K == "int" && o.A[0].I <= 2 {
+					o.A[0].I += 3
+				}
+				if o.A[0].K == "float" && (o.A[0].F == 0 || o.A[0].F == 1 || o.A[0].F == 2) {
+					o.A[0].F += 3.25
+				}
+			}
+		}
+	}
+	if g.F.NoLitIdentity {
+		fix(e.A[0])
+		fix(e.A[1])
+		// a node over constants only would be folded into a literal, which may then sit
+		// next to a variable as 0/1/2/true/false: make one operand a free variable
+		if isConstExpr(e.A[0]) && isConstExpr(e.A[1]) {
+			fv := "fi"
+			switch constKind(e.A[0]) {
+			case "float":
+				fv = "ff"
+			case "str":
+				fv = "fs"
+			case "bool":
+				fv = "fb"
+			}
+			e.A[0].Paren = 0
+			*e.A[0] = Expr{K: "var", S: fv}
+		}
+	}
+	if g.F.NoSelfOp && PrintExpr(e.A[0]) == PrintExpr(e.A[1]) {
+		switch e.A[1].K {
+		case "var":
+			*e.A[1] = Expr{K: "bin", Op: "+", A: []*Expr{{K: "var", S: e.A[1].S}, {K: "int", I: 5}}}
+			if e.Op == "&&" || e.Op == "||" {
+				*e.A[1] = Expr{K: "un", Op: "!", A: []*Expr{{K: "var", S: e.A[0].S}}}
+			}
+		default:
+			e.A[1].Paren = 0
+			*e.A[1] = Expr{K: "bin", Op: "+", A: []*Expr{{K: "int", I: 7}, {K: "int", I: 9}}}
+		}
+	}
+}
+
+// constTree builds an expression over literals only (what constant folding consumes).
+func (g *G) constTree(t Ty, depth int) *Expr {
+	leaf := depth <= 0 || g.R.Intn(3) == 0
+	switch t {
+	case TInt:
+		if leaf {
+			return &Expr{K: "int", I: int64(g.R.Intn(12))}
+		}
+		return &Expr{K: "bin", Op: []string{"+", "-", "*", "/", "%"}[g.R.Intn(5)], A: []*Expr{g.constTree(TInt, depth-1), g.constTree(TInt, depth-1)}}
+	case TFloat:
+		if leaf {
+			return &Expr{K: "float", F: float64(g.R.Intn(40)) / 4}
+		}
+		return &Expr{K: "bin", Op: []string{"+", "-", "*", "/"}[g.R.Intn(4)], A: []*Expr{g.constTree(TFloat, depth-1), g.constTree(TFloat, depth-1)}}
+	case TStr:
+		if leaf {
+			return g.strLit()
+		}
+		return &Expr{K: "bin", Op: "+", A: []*Expr{g.constTree(TStr, depth-1), g.constTree(TStr, depth-1)}}
+	default:
+		if leaf {
+			return &Expr{K: "bool", B: g.R.Intn(2) == 0}
+		}
+		switch g.R.Intn(4) {
+		case 0:
+			return &Expr{K: "bin", Op: []string{"&&", "||"}[g.R.Intn(2)], A: []*Expr{g.constTree(TBool, depth-1), g.constTree(TBool, depth-1)}}
+		case 1:
+			return &Expr{K: "un", Op: "!", A: []*Expr{g.constTree(TBool, depth-1)}}
+		case 2:
+			return &Expr{K: "bin", Op: []string{"<", "<=", ">", ">=", "==", "!="}[g.R.Intn(6)], A: []*Expr{g.constTree(TFloat, depth-1), g.constTree(TFloat, depth-1)}}
+		}
+		return &Expr{K: "bin", Op: []string{"<", "<=", ">", ">=", "==", "!="}[g.R.Intn(6)], A: []*Expr{g.constTree(TInt, depth-1), g.constTree(TInt, depth-1)}}
+	}
+}
+
+func isConstExpr(e *Expr) bool {
+	switch e.K {
+	case "int", "float", "str", "bool", "null":
+		return true
+	case "un", "bin":
+		for _, a := range e.A {
+			if !isConstExpr(a) {
+				return false
+			}
+		}
+		return true
+	}
+	return false
+}
+
+func constKind(e *Expr) string {
+	switch e.K {
+	case "int", "float", "str", "bool":
+		return e.K
+	case "un":
+		return constKind(e.A[0])
+	case "bin":
+		if prec[e.Op] <= 5 {
+			return "bool"
+		}
+		return constKind(e.A[0])
+	}
+	return "int"
 }
 
 func (g *G) expr(t Ty, depth int) *Expr {
@@ -550,11 +690,17 @@ func (g *G) stmt(depth int, retT Ty) *Stmt {
 	switch {
 	case c < 6 || depth <= 0:
 		return g.declStmt(g.pickTy())
+	case c < 9 && g.F.NoAssign:
+		return g.declStmt(g.pickTy())
 	case c < 9:
 		// assignment to a visible variable (array variables keep their statically known
 		// length unless out-of-range indexing is part of the profile)
 		t := g.pickTy()
 		if (t == TArrInt || t == TArrStr) && !g.F.IndexOOR {
+			t = TInt
+		}
+		if g.inLoop > 0 && (t == TStr || t == TArrInt || t == TArrStr || t == TObj) {
+			// no growing values inside loops: s = s + s in nested loops doubles without bound
 			t = TInt
 		}
 		if vs := g.varsOf(t); len(vs) > 0 {
@@ -564,7 +710,11 @@ func (g *G) stmt(depth int, retT Ty) *Stmt {
 		}
 		return g.declStmt(TInt)
 	case c < 12:
-		s := &Stmt{K: "if", E: g.Expr(TBool, 3), Body: g.block(depth-1, 1+g.R.Intn(2), retT)}
+		cond := g.Expr(TBool, 3)
+		if g.F.NoLitIdentity && g.R.Intn(5) == 0 {
+			cond = g.constTree(TBool, 2)
+		}
+		s := &Stmt{K: "if", E: cond, Body: g.block(depth-1, 1+g.R.Intn(2), retT)}
 		switch g.R.Intn(3) {
 		case 0:
 			s.Else = g.block(depth-1, 1+g.R.Intn(2), retT)
@@ -646,6 +796,9 @@ func (g *G) declStmt(t Ty) *Stmt {
 	// the top-level node has the declared type (so the recorded type of the variable is
 	// right); sub-expressions may still be ill-typed and make the statement fail
 	e := g.expr2(t, 3)
+	if g.F.NoLitIdentity && g.R.Intn(4) == 0 && (t == TInt || t == TFloat || t == TStr || t == TBool) {
+		e = g.constTree(t, 3) // a whole constant tree: folded by the optimizer, never next to a variable
+	}
 	if (t == TArrInt || t == TArrStr) && g.R.Intn(3) != 0 {
 		// mostly literal arrays of known, non-zero length so that indexing has something to hit
 		et := TInt
@@ -738,8 +891,20 @@ func (g *G) Program(size int) *Prog {
 		}
 	}
 	g.push()
+	if g.F.FreeVars {
+		for _, fv := range []struct {
+			n string
+			t Ty
+		}{{"fi", TInt}, {"ff", TFloat}, {"fs", TStr}, {"fb", TBool}, {"fa", TArrInt}, {"fo", TObj}, {"fj", TInt}} {
+			if (fv.t == TFloat && !g.F.Floats) || (fv.t == TStr && !g.F.Strings) || (fv.t == TArrInt && !g.F.Arrays) || (fv.t == TObj && !g.F.Objects) {
+				continue
+			}
+			p.Free = append(p.Free, fv.n)
+			g.declare(fv.n, fv.t)
+		}
+	}
 	// path parameters are strings; bind one as an input
-	if g.F.Strings && g.R.Intn(2) == 0 {
+	if !g.F.FreeVars && g.F.Strings && g.R.Intn(2) == 0 {
 		p.Inputs["pin"] = strPool[1+g.R.Intn(4)]
 		g.declare("pin", TStr)
 	}
@@ -990,6 +1155,13 @@ func (p *Prog) Source(routePath string) string {
 
 // RoutePath returns the declared pattern and the concrete request path for the program.
 func (p *Prog) RoutePath(prefix string) (pattern, request string) {
+	if len(p.Free) > 0 {
+		pattern = prefix
+		for _, f := range p.Free {
+			pattern += "/:" + f
+		}
+		return pattern, pattern
+	}
 	if v, ok := p.Inputs["pin"]; ok {
 		return prefix + "/:pin", prefix + "/" + v
 	}
